@@ -448,6 +448,15 @@ func c18UseWithoutHref(c *core.Check) {
 				atoms = append(atoms, a)
 				eq[a] = b.Op == token.EQL
 			}
+			// len(href) == 0
+			if z, ok := core.ConstInt(side[1]); ok && z == 0 {
+				if lc, ok := side[0].(*ssa.Call); ok {
+					if bi, ok := lc.Call.Value.(*ssa.Builtin); ok && bi.Name() == "len" && isHref(lc.Call.Args[0]) {
+						atoms = append(atoms, a)
+						eq[a] = b.Op == token.EQL
+					}
+				}
+			}
 		}
 	}
 	if len(atoms) == 0 {
